@@ -65,10 +65,18 @@ let verdict = function Ok _ -> "OK" | Err -> "ERR" | Panic -> "PANIC"
 
 let run op a =
   match op with
-  | "polyb" ->
+  | "polyb" | "polybB" ->
       let cs = List.map (fun x -> VInt (z x)) a in
       "OK" ^ nums (encode (TPoly TBfe) (VList cs))
-  | "polyx" ->
+  | "polybBv" ->
+      let cs = List.map (fun x -> VInt (z x)) a in
+      "OK" ^ nums (encode (TVec (TPoly TBfe)) (VList [VList cs; VList cs]))
+  | "polyxBv" ->
+      let rec tr = function
+        | a0 :: a1 :: a2 :: r -> VList [VList [VInt (z a0); VInt (z a1); VInt (z a2)]] :: tr r
+        | _ -> [] in
+      "OK" ^ nums (encode (TVec (TPoly tXfe)) (VList [VList (tr a); VList (tr a)]))
+  | "polyx" | "polyxB" ->
       let rec tr = function
         | a0 :: a1 :: a2 :: r -> VList [VList [VInt (z a0); VInt (z a1); VInt (z a2)]] :: tr r
         | _ -> [] in
@@ -76,6 +84,8 @@ let run op a =
   | _ ->
       let t = ty_of (List.nth a 1) in
       let sq = List.map z (drop 2 a) in
+      (* decw <tid> <type> <n1> <n1 warm-up elements> <rest>: the verdict and cost are those of decm on <rest> *)
+      let (op, sq) = if op = "decw" then ("decm", drop (1 + ZZ.to_int (List.hd sq)) sq) else (op, sq) in
       (match op with
        | "dec" | "decv" ->
            let r = decode false t sq in
